@@ -126,6 +126,9 @@ type subDirFS struct {
 }
 
 func (fs *subDirFS) Walk(ctx context.Context, target string, fn gofs.WalkDirFunc) error {
+	// "/x", "./x" and "x/." name the sub-root x, "." and "/" the whole
+	// composite, as they do for the other FS implementations
+	target = strings.TrimPrefix(filepath.Clean(string(filepath.Separator)+target), string(filepath.Separator))
 	first, rest, _ := strings.Cut(target, string(filepath.Separator))
 
 	for _, d := range fs.dirs {
